@@ -245,18 +245,79 @@ def check(ctx, rep):
                 rep.add("R18c", f"{m.qualname}: pops only under their flag", not bad, ctx.where(m),
                         f"{sorted(set(bad))} can run although no locals were pushed for this element: the caller's variables are popped away" if bad else "",
                         key=f"R18c|{m.qualname}|pop")
-    # Context: push/pop are stack-symmetric
-    if cx is not None:
+    context_symmetry(ctx, rep, "R18c", tales)
+
+
+def context_symmetry(ctx, rep, rule, tales):
+    """Context.pushLocals/popLocals and addRepeat/removeRepeat save and restore by stack."""
+    prog = ctx.prog
+    cx = tales.classes.get("Context")
+    if cx is None:
+        rep.fail(rule, "simpleTALES.Context", detail="context class not found")
+        return
+
+    def saved(fn):
+        """(stack, field) pairs: self.<stack>.append(self.<field>) followed by self.<field> = <copy>"""
+        out = []
+        if fn is None:
+            return out
+        for n in ast.walk(fn.node):
+            if isinstance(n, ast.Call) and isinstance(n.func, ast.Attribute) and n.func.attr == "append" and n.args \
+                    and (dotted(n.func.value) or "").startswith("self.") and (dotted(n.args[0]) or "").startswith("self."):
+                stack, field = dotted(n.func.value), dotted(n.args[0])
+                copied = False
+                for a in ast.walk(fn.node):
+                    if isinstance(a, ast.Assign) and any(dotted(t) == field for t in a.targets) and a.lineno > n.lineno:
+                        v = a.value
+                        if isinstance(v, ast.Call) and ((isinstance(v.func, ast.Attribute) and v.func.attr in ("copy", "deepcopy") and (dotted(v.func.value) == field or (v.args and dotted(v.args[0]) == field)))
+                                                        or (dotted(v.func) in ("dict", "list") and v.args and dotted(v.args[0]) == field)):
+                            copied = True
+                        elif isinstance(v, (ast.Dict, ast.List)) and not (v.keys if isinstance(v, ast.Dict) else v.elts):
+                            copied = True
+                out.append((stack, field, copied))
+        return out
+
+    def restored(fn):
+        out = []
+        if fn is None:
+            return out
+        for n in ast.walk(fn.node):
+            if isinstance(n, ast.Assign) and isinstance(n.value, ast.Call) and isinstance(n.value.func, ast.Attribute) and n.value.func.attr == "pop" \
+                    and not n.value.args and (dotted(n.value.func.value) or "").startswith("self."):
+                for t in n.targets:
+                    if (dotted(t) or "").startswith("self."):
+                        out.append((dotted(n.value.func.value), dotted(t)))
+        return out
+    for push, pop, what in (("pushLocals", "popLocals", "local variables"), ("addRepeat", "removeRepeat", "repeat variables")):
+        pf, qf = cx.methods.get(push), cx.methods.get(pop)
         problems = []
-        pl, pp = cx.methods.get("pushLocals"), cx.methods.get("popLocals")
-        ar, rr = cx.methods.get("addRepeat"), cx.methods.get("removeRepeat")
-        if pl is None or pp is None or "self.localStack.append(self.locals)" not in norm(pl.node) or "self.locals = self.localStack.pop()" not in norm(pp.node):
-            problems.append("pushLocals/popLocals do not save/restore self.locals on localStack")
-        if ar is None or rr is None or "self.repeatStack.append(self.repeatMap)" not in norm(ar.node) or "self.repeatMap = self.repeatStack.pop()" not in norm(rr.node):
-            problems.append("addRepeat/removeRepeat do not save/restore the repeat map")
-        if ar is not None and "self.pushLocals()" not in norm(ar.node):
+        if pf is None or qf is None:
+            problems.append(f"{push}/{pop} not found")
+        else:
+            sv = [x for x in saved(pf)]
+            # addRepeat may delegate the locals part to pushLocals
+            rs = restored(qf)
+            own = [(st, f, c) for st, f, c in sv]
+            if not own:
+                problems.append(f"{push} does not save the current {what} on a stack: an inner scope overwrites the outer one's {what} for good")
+            for st, f, c in own:
+                if not c:
+                    problems.append(f"{push} saves {f} but keeps using (and mutating) the same object instead of a copy")
+                if (st, f) not in rs:
+                    problems.append(f"{pop} does not restore {f} from {st}")
+            # mutation of the field in place without having been saved
+            for n in ast.walk(pf.node):
+                if isinstance(n, ast.Call) and isinstance(n.func, ast.Attribute) and n.func.attr in ("pop", "clear", "update", "__delitem__") \
+                        and any(dotted(n.func.value) == f for _, f, _ in own):
+                    pass
+            for n in ast.walk(qf.node):
+                if isinstance(n, ast.Call) and isinstance(n.func, ast.Attribute) and n.func.attr in ("pop", "clear", "popitem") and n.args \
+                        and (dotted(n.func.value) or "").startswith("self.") and not any(dotted(n.func.value) == st for st, _, _ in own):
+                    problems.append(f"{pop} deletes entries from {dotted(n.func.value)} in place (an outer scope's entry of the same name is lost)")
+        if push == "addRepeat" and pf is not None and not any(isinstance(n, ast.Call) and isinstance(n.func, ast.Attribute) and n.func.attr == "pushLocals" for n in ast.walk(pf.node)):
             problems.append("addRepeat does not push locals for the loop variable")
-        rep.add("R18c", "Context push/pop are stack-symmetric", not problems, ctx.where(pl) if pl else tales.relpath, "; ".join(problems), key="R18c|context")
+        rep.add(rule, f"Context.{push}/{pop}: {what} scoped by stack", not problems, ctx.where(pf) if pf else tales.relpath,
+                "; ".join(sorted(set(problems))), key=f"{rule}|context|{push}")
 
 
 def _flatten_add(n):
